@@ -18,7 +18,12 @@ pub type B = Bdd<String>;
 
 fn main() {
     // silent panic hook: panics of the crate under test are caught and reported as `panic`
-    std::panic::set_hook(Box::new(|_| {}));
+    // (set VERIF_DEBUG to see them, e.g. to find a panic of the harness itself)
+    if std::env::var("VERIF_DEBUG").is_ok() {
+        std::panic::set_hook(Box::new(|info| eprintln!("PANIC {}", info)));
+    } else {
+        std::panic::set_hook(Box::new(|_| {}));
+    }
     let args: Vec<String> = std::env::args().collect();
     let cmd = args.get(1).map(|s| s.as_str()).unwrap_or("");
     match cmd {
